@@ -85,7 +85,7 @@ def _small_task(task):
     if inst is None:
         acc.degrade("%s unavailable: %s" % (name, why))
         return acc
-    f = check_pw if what == "pw" else check_seed
+    f = _fn(what)
     n = 0
     for first in firsts:
         if first is None:
@@ -102,9 +102,23 @@ def _small_task(task):
     acc.inst(name, **{what: n})
     if firsts and firsts[-1] is not None:
         s = bytes([firsts[-1], 255])
-        acc.sample({"inst": name, "function": "password_to_scalar" if what == "pw" else "arbitrary_element", "input": s,
-                    "reference": inst.ref.pw_scalar(s) if what == "pw" else "see oracle"})
+        acc.sample({"inst": name, "functions": what, "input": s, "reference_password_scalar": inst.ref.pw_scalar(s)})
     return acc
+
+
+def _fn(what):
+    """'both': the same string as password, as seed, and as password again, in one process (the two derivations must not
+    influence each other whatever was computed before)"""
+    if what == "pw":
+        return check_pw
+    if what == "seed":
+        return check_seed
+
+    def both(inst, s, acc):
+        check_pw(inst, s, acc)
+        check_seed(inst, s, acc)
+        check_pw(inst, s, acc)
+    return both
 
 
 def _slice_task(task):
@@ -114,7 +128,7 @@ def _slice_task(task):
     if inst is None:
         acc.degrade("%s unavailable: %s" % (name, why))
         return acc
-    f = check_pw if what == "pw" else check_seed
+    f = _fn(what)
     for s in items:
         f(inst, s, acc)
     acc.n(traces=1)
@@ -156,27 +170,27 @@ def run(tier, seed):
     tasks = []
     allfirst = [None] + list(range(256))
     for name in b["int_toys"]:
-        for what in ("pw", "seed"):
-            for ch in core.chunks(allfirst, 8):
-                tasks.append(("small", (name, what, ch)))
+        for ch in core.chunks(allfirst, 16):
+            tasks.append(("small", (name, "both", ch)))
     for name in b["ed_toys"]:
         for ch in core.chunks(allfirst, 8):
             tasks.append(("small", (name, "pw", ch)))
         if quick:
             items = [b""] + [bytes([i]) for i in range(256)] + [bytes([f, i]) for f in (0, 0x4d, 0xff) for i in range(256)]
             for ch in core.chunks(items, 16):
-                tasks.append(("slice", (name, "seed", ch)))
+                tasks.append(("slice", (name, "both", ch)))
         else:
             for ch in core.chunks(allfirst, 64):
-                tasks.append(("small", (name, "seed", ch)))
+                tasks.append(("small", (name, "both", ch)))
     items = [b""] + [bytes([i]) for i in range(256)] + [bytes([(7 * n + i) % 256 for i in range(n)]) for n in LENGTHS] + \
             [b"M", b"N", b"symmetric", b"Symmetric", b"M\x00", b"password", b"\x00" * 64, b"\xff" * 64]
     for name in T.SHIPPED:
-        for ch in core.chunks(items, 16):
+        sub = items if not quick else items[:1] + items[1:257:4] + items[257:]
+        for ch in core.chunks([i for i in items if i not in sub], 16):
             tasks.append(("slice", (name, "pw", ch)))
-        for ch in core.chunks(items if not quick else items[:1] + items[1:257:4] + items[257:], 24):
-            tasks.append(("slice", (name, "seed", ch)))
-    tasks.sort(key=lambda t: -(T.get(t[1][0]).ref.esize * (3 if t[1][1] == "seed" else 1) * (1 if t[0] == "small" else 40)))
+        for ch in core.chunks(sub, 24):
+            tasks.append(("slice", (name, "both", ch)))
+    tasks.sort(key=lambda t: -(T.get(t[1][0]).ref.esize * (3 if t[1][1] != "pw" else 1) * (1 if t[0] == "small" else 40)))
     core.pmerge(_dispatch, tasks, acc)
     _constants(acc)
     return acc
